@@ -349,10 +349,10 @@ def processPacket (cfg : Cfg) (n : Node) (p : Option GossipPacket) : Node × Out
         if m.id ≠ .known then (n, .err)                         -- identityForBeacon
         else if !n.phase.storeOpen then (n, .err)               -- store.GetCurrent
         else
-          let (ph, o) := applyBody n m b
-          if o = .ok then
-            ({ n with phase := ph, seen := (match sigIdent m b with | some t => t :: n.seen | none => n.seen) }, .ok)
-          else (n, o)
+          let r := applyBody n m b
+          if r.2 = .ok then
+            ({ n with phase := r.1, seen := (match sigIdent m b with | some t => t :: n.seen | none => n.seen) }, .ok)
+          else (n, r.2)
 
 /-- `Process.BroadcastDKG` -/
 def processBroadcast (cfg : Cfg) (n : Node) (p : Option DKGPacket) : Node × Outcome :=
@@ -442,7 +442,7 @@ def handle (cfg : Cfg) (l : Layer) (n : Node) (r : DkgReq) : Node × Outcome :=
   match l with
   | .proc => processHandle cfg n r
   | .daemon => daemonHandle cfg n r
-  | .grpc => let (n', o) := daemonHandle cfg n r; (n', serve r.listener o)
+  | .grpc => ((daemonHandle cfg n r).1, serve r.listener (daemonHandle cfg n r).2)
 
 /-! ### probes (what the harness sends after every request) -/
 
